@@ -63,6 +63,12 @@ pub uninterp spec fn cdata_of(ev: InputEvent) -> Option<Seq<char>>;
 pub open spec fn content_of(evs: Seq<InputEvent>, n: int, s: Seq<char>) -> bool {
     exists|k: int| 0 <= k < n && k < evs.len() && (text_of(#[trigger] evs[k]) == Some(s) || cdata_of(evs[k]) == Some(s))
 }
+/// the character data of the first n events, in order (text decoded, CDATA as is); an event that is neither ends it
+pub open spec fn content_all(evs: Seq<InputEvent>, n: int) -> Seq<char> decreases n {
+    if n <= 0 || n > evs.len() { Seq::<char>::empty() } else {
+        content_all(evs, n - 1) + (match text_of(evs[n - 1]) { Some(t) => t, None => match cdata_of(evs[n - 1]) { Some(c) => c, None => Seq::<char>::empty() } })
+    }
+}
 pub open spec fn graphics_name(n: Seq<char>) -> bool {
     n == "circle"@ || n == "ellipse"@ || n == "image"@ || n == "line"@ || n == "path"@ || n == "polygon"@ || n == "polyline"@ || n == "rect"@ || n == "text"@ || n == "use"@ || n == "reuse"@
 }
@@ -317,9 +323,13 @@ impl EventGen for Container {
 //@ - r is Ok && old(context).scope_stack.len() > 0 ==> final(context).scope_stack@ == old(context).scope_stack@     @@C15.container.bindings_restored
 //@ loop 1
 //@ iter it
+//@ body-start
+//@ | proof { reveal_with_fuel(content_all, 2); assert(inner_events.events@[it.index@] == *e); }
 //@ invariant
 //@ - inner_events.events@ == it.history@.map(|i: int, e: &InputEvent| *e) + vstd::std_specs::iter::IteratorSpec::remaining(&it.iter).map(|i: int, e: &InputEvent| *e)
+//@ - it.index@ == it.history@.len()
 //@ - inner_text is Some ==> content_of(inner_events.events@, it.index@, inner_text->Some_0@)     @@C19.content.promoted_verbatim
+//@ - inner_text is Some ==> inner_text->Some_0@ == content_all(inner_events.events@, it.index@)     @@C19.content.whole
 //@end
 }
 } // verus!
